@@ -53,7 +53,7 @@ REQS = [
 ]
 
 
-def l1_stall(ctx, data, label, i, uploads, with_mw):
+def l1_stall(ctx, data, label, i, uploads, with_mw, cuts=()):
     from nauyaca.server import protocol as P
 
     log = []
@@ -65,7 +65,11 @@ def l1_stall(ctx, data, label, i, uploads, with_mw):
         sim = ServerSim(lambda: P.GeminiServerProtocol(h, mw, up), loop=loop, log=log)
         sim.start()
         if i:
-            sim.feed(data[:i])
+            prev = 0
+            for c in list(cuts) + [i]:
+                if c > prev:
+                    sim.feed(data[prev:c])
+                    prev = c
         end = sim.finish(HORIZON)
         t = sim.transport
         return {"stream": bytes(t.written), "closing": t.closing, "close_time": t.close_time, "end": end,
@@ -87,13 +91,30 @@ def run_l1(ctx):
                     complete_at = data.find(b"\r\n") + 2  # refused with 50 right after the line
                 else:
                     complete_at = len(data)
+                le = data.find(b"\r\n") + 2
+                work = []
                 for i in range(0, len(data) + 1):
+                    work.append((i, ()))
+                    # the delivered prefix arrives in 2 or 3 reads (every cut position; cuts at the
+                    # end of the request line are always included, others thinned in the quick tier)
+                    for j in range(1, i):
+                        if ctx.quick() and j != le and (i + j) % 5:
+                            continue
+                        work.append((i, (j,)))
+                    if i > le + 1:
+                        for j in range(le + 1, i):
+                            if ctx.quick() and (i + j) % 4:
+                                continue
+                            work.append((i, (le, j)))
+                    if i > 2:
+                        work.append((i, tuple(range(1, i))))
+                for i, cuts in work:
                     k += 1
                     if not ctx.mine(k):
                         continue
-                    obs = l1_stall(ctx, data, label, i, uploads, with_mw)
+                    obs = l1_stall(ctx, data, label, i, uploads, with_mw, cuts)
                     phase = "line" if i < data.find(b"\r\n") + 2 else "body"
-                    wit = {"level": "L1", "request": data, "delivered": i, "uploads": uploads, "middleware": with_mw, "observed": obs}
+                    wit = {"level": "L1", "request": data, "delivered": i, "read_boundaries": list(cuts)[:12], "uploads": uploads, "middleware": with_mw, "observed": obs}
                     if i < complete_at:
                         ctx.count("monitor", "l1_stalls")
                         if not obs["closing"]:
@@ -108,8 +129,10 @@ def run_l1(ctx):
                             ctx.violation(f"early-close:phase={phase}:backend=plain", f"incomplete request closed at {obs['close_time']} < {T}", wit)
                         else:
                             ctx.count("outcome", f"L1:timeout-40@{obs['close_time']}:{phase}")
-                        ctx.case(("L1", label, phase, uploads, with_mw, "incomplete", obs["stream"][:2], obs["close_time"]), True,
-                                 sample={"level": "L1", "label": label, "delivered": i, "close_time": obs["close_time"], "stream": obs["stream"][:30]})
+                        nreads = len(cuts) + 1
+                        cutpos = "none" if not cuts else ("at-line-end" if le in cuts else ("in-line" if cuts[0] < le else "in-body"))
+                        ctx.case(("L1", label, phase, uploads, with_mw, "incomplete", obs["stream"][:2], obs["close_time"], min(nreads, 4), cutpos), True,
+                                 sample={"level": "L1", "label": label, "delivered": i, "reads_at": list(cuts)[:6], "close_time": obs["close_time"], "stream": obs["stream"][:30]})
                     else:
                         if obs["stream"].startswith(b"40 Request timeout") or (obs["close_time"] or 0) >= T:
                             ctx.violation(f"timeout-after-complete:phase=complete:backend=plain", "complete request answered with a timeout", wit)
